@@ -69,6 +69,11 @@ def jobs(tier: str):
         arith = ["r(X/2,W)", "r(X+1,W)", "r(2*X,W)", "K = X/2", "q(X,Y/2,Z)", "t(|Y|)", "W = Y+1"]
         for a in arith:
             yield from (c + (a,) for c in subsets(["q(X,Y,Z)", "r(W,E)", "t(E)", "r(X,W)", "s(Y,E)", "r(K,W)"], 2, 3))
+        # doubly negated literals bind nothing: an atom / an assigning aggregate under `not not` next to the real binders
+        dneg = ["not not q(X,Y,Z)", "not not r(X,W)", "not not s(Y,E)", "not not X = #count { V : v(V,Y) }",
+                "not not N = #sum { V : v(V,X) }", "not not r(Y,W)"]
+        for d in dneg:
+            yield from (c + (d,) for c in subsets(["q(X,Y,Z)", "r(X,W)", "r(Y,W)", "t(E)", "s(Y,E)", "v(Z,E)", "t(N)"], 2, 3))
 
     def gen():
         for hname, head in HEADS + [("h3", "h(X,W,K)")]:
